@@ -1,7 +1,83 @@
 import TTV.Sexp
-/-! Driver glue for C14 — stub, replaced when the property's model is built. -/
-namespace TTV.Drv.C14
-open TTV
+import TTV.Model.AsyncRun
+import TTV.Spec.C14
+/-! Driver glue for C14: codecs between S-expressions and `AsyncRun.Prog` / `AsyncRun.Trace`.
 
-def handle (_ : List Sexp) : Sexp := .atom "unimplemented"
+Input : `(timeout (stop …) broken suppress store nObs setUp body tearDown)`,
+        main stage = `((stage …) stage)` (the cleanups it registers, then itself), stage = `((side …) beh)`,
+        side = `(junk d)` | `logerr` | `dropfailed` | `flush` | `expect`,
+        beh = `ret` | `(raise k)` | `(fire d)` | `(faild d k)` | `never`, k = `err` | `fail` | `skip`
+Trace : `((ev …) stopRequested raised ((name t observers) …) leftover pending obsRestored realStops finalTime)`,
+        name = `setUp` | `body` | `tearDown` | `(cleanup i)`, ev = `startTest` | `success` | `error` | `failure` | `skip` | `stopTest` -/
+namespace TTV.Drv.C14
+open TTV TTV.Sexp TTV.AsyncRun
+
+def exc? : Sexp → Option Exc
+  | .atom "err" => some .err | .atom "fail" => some .fail | .atom "skip" => some .skip | _ => none
+
+def beh? : Sexp → Option Beh
+  | .atom "ret" => some .ret
+  | .list [.atom "raise", k] => (exc? k).map .raise
+  | .list [.atom "fire", d] => (nat? d).map .fire
+  | .list [.atom "faild", d, k] => do some (.failD (← nat? d) (← exc? k))
+  | .atom "never" => some .never
+  | _ => none
+
+def side? : Sexp → Option Side
+  | .list [.atom "junk", d] => (nat? d).map .junk
+  | .atom "logerr" => some .logerr
+  | .atom "dropfailed" => some .dropfailed
+  | .atom "flush" => some .flush
+  | .atom "expect" => some .expect
+  | _ => none
+
+def stage? : Sexp → Option Stage
+  | .list [sides, b] => do some { sides := ← list? side? sides, beh := ← beh? b }
+  | _ => none
+
+def mstage? : Sexp → Option MStage
+  | .list [cs, s] => do some { cleanups := ← list? stage? cs, stage := ← stage? s }
+  | _ => none
+
+def input? : Sexp → Option Prog
+  | .list [t, stops, br, su, st, n, a, b, c] => do
+      some { timeout := ← nat? t, stops := ← list? nat? stops, broken := ← bool? br, suppress := ← bool? su,
+             store := ← bool? st, nObs := ← nat? n, setUp := ← mstage? a, body := ← mstage? b, tearDown := ← mstage? c }
+  | _ => none
+
+def ev? : Sexp → Option Ev
+  | .atom "startTest" => some .startTest | .atom "success" => some .success | .atom "error" => some .error
+  | .atom "failure" => some .failure | .atom "skip" => some .skip | .atom "stopTest" => some .stopTest
+  | _ => none
+def ofEv : Ev → Sexp
+  | .startTest => .atom "startTest" | .success => .atom "success" | .error => .atom "error"
+  | .failure => .atom "failure" | .skip => .atom "skip" | .stopTest => .atom "stopTest"
+
+def sname? : Sexp → Option SName
+  | .atom "setUp" => some .setUp | .atom "body" => some .body | .atom "tearDown" => some .tearDown
+  | .list [.atom "cleanup", i] => (nat? i).map .cleanup
+  | _ => none
+def ofSName : SName → Sexp
+  | .setUp => .atom "setUp" | .body => .atom "body" | .tearDown => .atom "tearDown"
+  | .cleanup i => tag "cleanup" [ofNat i]
+
+def logEntry? : Sexp → Option (SName × Nat × Nat)
+  | .list [n, t, o] => do some (← sname? n, ← nat? t, ← nat? o)
+  | _ => none
+def ofLogEntry (e : SName × Nat × Nat) : Sexp := .list [ofSName e.1, ofNat e.2.1, ofNat e.2.2]
+
+def trace? : Sexp → Option Trace
+  | .list [evs, sr, ra, st, lo, pe, ob, rs, ft] => do
+      some { events := ← list? ev? evs, stopRequested := ← bool? sr, raised := ← bool? ra, stages := ← list? logEntry? st,
+             leftover := ← nat? lo, pending := ← nat? pe, obsRestored := ← bool? ob, realStops := ← nat? rs,
+             finalTime := ← nat? ft }
+  | _ => none
+def ofTrace (t : Trace) : Sexp :=
+  .list [ofList ofEv t.events, ofBool t.stopRequested, ofBool t.raised, ofList ofLogEntry t.stages, ofNat t.leftover,
+         ofNat t.pending, ofBool t.obsRestored, ofNat t.realStops, ofNat t.finalTime]
+
+def drv : PropDrv Prog Trace :=
+  { decI := input?, decT := trace?, encT := ofTrace, model := model, clauses := Spec.C14.clauses }
+
+def handle : List Sexp → Sexp := drv.handle
 end TTV.Drv.C14
